@@ -484,6 +484,9 @@ class RSocketBase(RSocket, RSocketInternal):
 
         await self._stop_tasks()
 
+        # Requests made after the receiver had already ended (connection lost earlier) are still registered.
+        self.stop_all_streams()
+
         await self._close_transport()
 
     async def _stop_tasks(self):
